@@ -70,9 +70,9 @@ func vmatches(tm *typesMap, typs []types.Type) []string {
 
 func vhad(tm *typesMap, name string) interface{} {
 	if ts, ok := tm.funcToTyps[name]; ok {
-		return vkey(ts)
+		return vm{"ok": true, "key": vkey(ts)}
 	}
-	return nil
+	return vm{"ok": false, "key": []string{}}
 }
 
 func vset(m map[string]struct{}) []string {
